@@ -33,6 +33,7 @@ type options struct {
 	seed                                                    int64
 	idx, workers, checks                                    int
 	budget                                                  float64
+	determinism                                             bool
 }
 
 type workerResult struct {
@@ -64,6 +65,7 @@ func main() {
 	fs.IntVar(&o.workers, "workers", 0, "number of workers")
 	fs.IntVar(&o.checks, "checks", 0, "generated bundles per worker (quick) / per chunk (thorough)")
 	fs.Float64Var(&o.budget, "budget", 0, "thorough: wall-clock budget in seconds")
+	fs.BoolVar(&o.determinism, "determinism", false, "self-test: run every case under GOMAXPROCS 1/4/16 and compare observations")
 	testing.Init()
 	if err := fs.Parse(os.Args[2:]); err != nil {
 		os.Exit(2)
@@ -145,7 +147,7 @@ func workerMain(o *options) int {
 		infra("unknown property %q", o.prop)
 	}
 	stats := newStats()
-	runner := &Runner{Plain: o.plain, Race: o.race, TmpDir: o.tmp, ModRoot: o.modroot, Stats: stats}
+	runner := &Runner{Plain: o.plain, Race: o.race, TmpDir: o.tmp, ModRoot: o.modroot, Stats: stats, Determinism: o.determinism}
 	known := loadKnown(filepath.Join(o.verif, "known_findings.json"))
 	res := &workerResult{Stats: stats}
 	var infraMsg string
@@ -262,6 +264,9 @@ func workerMain(o *options) int {
 	}
 	res.Chunks = chunk
 	res.Infra = infraMsg
+	if o.determinism {
+		stats.Probes["determinism_triples_compared"] += runner.DetCompared
+	}
 	b, err := json.Marshal(res)
 	if err != nil {
 		infra("cannot encode worker result: %v", err)
@@ -322,6 +327,9 @@ func runMain(o *options) int {
 			args := []string{"worker", "-prop", o.prop, "-tier", o.tier, "-plain", o.plain, "-race", o.race, "-tmp", o.tmp,
 				"-modroot", o.modroot, "-verif", o.verif, "-seed", strconv.FormatInt(o.seed, 10), "-idx", strconv.Itoa(i),
 				"-workers", strconv.Itoa(workers), "-checks", strconv.Itoa(checks), "-budget", fmt.Sprint(budget), "-out", out}
+			if o.determinism {
+				args = append(args, "-determinism")
+			}
 			cmd := exec.Command(self, args...)
 			cmd.Stderr = os.Stderr
 			cmd.Stdout = os.Stderr
